@@ -1060,12 +1060,23 @@ package gohlslib
 //@        && callarg("muxerStream.rotateSegments", rotPos(m, i), 3) == force))
 //@ end
 
+// what muxerStream.rotateParts needs from its stream (everything but the shared mutex), and the separation of
+// the objects two streams' rotations write: their open parts and the segments these belong to
+//@ pred rpPre(s *muxerStream) := streamLinks(s) && s.server.pathHandlers != nil && unheld(&s.server.mutex) && handlersOK(s.server)
+//@   && partOK(s.nextPart) && s.nextPart.segment != nil && storage.fileOpen(s.nextPart.segment.storage)
+//@   && s.nextSegment != nil && isF(s.nextSegment) && asF(s.nextSegment) == s.nextPart.segment
+//@   && s.nextPartID < 9000000000000000000 && s.onEncodeError != nil && s.variant != MuxerVariantMPEGTS
+//@   && distinctTracks(s.tracks) && segsOK(s.segments)
+//@   && forall(j, (0 <= j && j < len(s.nextPart.segment.parts)) ==> s.nextPart.segment.parts[j] != nil)
+//@ pred partsDisjoint(m *Muxer) := forall(i, (0 <= i && i < len(m.streams)) ==> forall(j, (i < j && j < len(m.streams)) ==>
+//@        (m.streams[i].nextPart != m.streams[j].nextPart && m.streams[i].nextPart.segment != m.streams[j].nextPart.segment)))
+//@ pred nheldOne() := true
+
 //@ func Muxer.rotatePartsInner
 //@   props C03 C04 C06 C08
 //@   role writer
-//@   nosafety
-//@   nocallpre
-//@   requires held(&m.mutex) && streamsOK(m) && oneLeader(m)
+//@   requires held(&m.mutex) && nheldOne() && muxerLinks(m) && streamsOK(m) && oneLeader(m) && m.leadingStream != nil
+//@   requires forall(i, (0 <= i && i < len(m.streams)) ==> rpPre(m.streams[i])) && partsDisjoint(m)
 //@   modifies muxerStream.nextPartID, muxerStream.nextPart, muxerStream.partTargetDuration, muxerStream.nextSegmentID, muxerStream.nextSegment, muxerStream.segments
 //@   modifies muxerStream.segmentDeleteCount, muxerStream.initFilePresent, muxerStream.targetDuration, muxerPart.endDTS, muxerTrack.fmp4Samples
 //@   modifies muxerSegmentFMP4.parts, muxerSegmentFMP4.endDTS, muxerSegmentMPEGTS.endDTS, muxerSegmentMPEGTS.bw, switchableWriter.w, muxerServer.pathHandlers
@@ -1074,6 +1085,8 @@ package gohlslib
 //@        && callarg("muxerStream.rotateParts", rotPos(m, i), 1) == nextDTS && callarg("muxerStream.rotateParts", rotPos(m, i), 2) == 1))
 //@   ensures [C03] result == nil ==> forall(i, (0 <= i && i < len(m.streams)) ==> m.streams[i].partTargetDuration == m.leadingStream.partTargetDuration)
 //@   loop 1 invariant forall(i, (0 <= i && i <= ri) ==> m.streams[i].partTargetDuration == m.leadingStream.partTargetDuration)
+//@   loop 1 invariant held(&m.mutex) && nheldOne() && muxerLinks(m) && m.leadingStream != nil && partsDisjoint(m)
+//@   loop 1 invariant forall(i, (ri < i && i < len(m.streams) && i != lidx(m)) ==> rpPre(m.streams[i]))
 //@   loop 1 invariant ri < len(m.streams) && streamsOK(m) && oneLeader(m) && calls("muxerStream.rotateParts") == 1 + (ri + 1) - ite(lidx(m) <= ri, 1, 0)
 //@   loop 1 invariant forall(i, (0 <= i && i < len(m.streams) && (i <= ri || i == lidx(m))) ==> (callarg("muxerStream.rotateParts", rotPos(m, i), 0) == m.streams[i]
 //@        && callarg("muxerStream.rotateParts", rotPos(m, i), 1) == nextDTS && callarg("muxerStream.rotateParts", rotPos(m, i), 2) == 1))
